@@ -144,3 +144,49 @@ def end_wins_over_dur(hd: list[int], rest: list[int], hd2: list[int], rest2: lis
     p = PTag(begin="00:00:01", end=_stamp(hd, rest, []))
     s, e = DFXPReader()._find_and_convert_times(p)
     return "" if (s == 1000000 and e == _val(hd, rest, [])) else "value"
+
+
+# --- document structure through the public DFXPReader.read (html.parser based, runs under CrossHair) ---------------
+def _p(kind, form, idx):
+    """paragraph idx: kind 0 text, 1 empty, 2 text inside a span, 3 only a <br/>; time form 0 clock, 1 offset s, 2 offset ms + dur, 3 clock + dur"""
+    start = 10 * (idx + 1)
+    if form == 0:
+        times = 'begin="00:00:%02d.500" end="00:00:%02d.250"' % (start, start + 2)
+        want = (start * 1000000 + 500000, (start + 2) * 1000000 + 250000)
+    elif form == 1:
+        times = 'begin="%ds" end="%d.5s"' % (start, start + 2)
+        want = (start * 1000000, (start + 2) * 1000000 + 500000)
+    elif form == 2:
+        times = 'begin="%dms" dur="1500ms"' % (start * 1000)
+        want = (start * 1000000, start * 1000000 + 1500000)
+    else:
+        times = 'begin="00:00:%02d" dur="00:00:02"' % start
+        want = (start * 1000000, (start + 2) * 1000000)
+    body = {0: "text%d" % idx, 1: "", 2: '<span tts:fontStyle="italic">text%d</span>' % idx, 3: "<br/>"}[kind]
+    return "<p %s>%s</p>" % (times, body), (want if kind in (0, 2) else None), "text%d" % idx
+
+
+def dfxp_structure(k0: int, k1: int, f0: int, f1: int) -> str:
+    """
+    pre: 0 <= k0 <= 3 and 0 <= k1 <= 3 and 0 <= f0 <= 3 and 0 <= f1 <= 3
+    post: _ == ""
+    """
+    import warnings
+    warnings.simplefilter("ignore")
+    from pycaption.exceptions import CaptionReadNoCaptions
+
+    def c4(i):
+        return 0 if i == 0 else (1 if i == 1 else (2 if i == 2 else 3))
+    parts = [_p(c4(k0), c4(f0), 0), _p(c4(k1), c4(f1), 1), _p(0, 0, 2)]
+    doc = ('<tt xml:lang="en" xmlns="http://www.w3.org/ns/ttml" xmlns:tts="http://www.w3.org/ns/ttml#styling"><body><div>'
+           + "".join(p for p, _, _ in parts) + "</div></body></tt>")
+    want = [(w, t) for _, w, t in parts if w is not None]
+    caps = DFXPReader().read(doc).get_captions("en")
+    if len(caps) != len(want):
+        return "one caption per non-empty cue"
+    for c, ((s, e), t) in zip(caps, want):
+        if c.get_text() != t:
+            return "document order / text"
+        if c.start != s or c.end != e:
+            return "times"
+    return ""
